@@ -1301,6 +1301,11 @@ class ModelMixin:
                 env[pn] = self.coerce_arg(env[pn], pt, st, f'{finfo.name}.{pn}', line)
         pre = st.fork()
         ctx = CallCtx(self, finfo, env, self_val, pre)
+        for lname in getattr(c, 'requires_held', ()):
+            lref = st.obj(self_val).fields.get(lname) if isinstance(self_val, Ref) else None
+            okh = isinstance(lref, Ref) and self.lock_of(lref, st).oid in st.held
+            self.oblige(st, f'pre.{finfo.qualname.split(":")[1]}.caller_holds_{lname}@{line}', bool(okh), kind='lock', line=line,
+                        note=f'{finfo.name} is a helper of the monitor: it must be called with {lname} held')
         for i, f in enumerate(c.requires(ctx)):
             nm = f[0] if isinstance(f, tuple) else str(i)
             fm = f[1] if isinstance(f, tuple) else f
